@@ -120,6 +120,7 @@ impl Chan {
             cap: match cap {
                 Cap::B(n) => n as usize,
                 Cap::Unbounded => usize::MAX,
+                Cap::Big => BIG,
             },
             queue: VecDeque::new(),
             waiters: VecDeque::new(),
